@@ -41,6 +41,8 @@ def jobs(tier, seed):
             add(d, "steps")
         if i % 5 == 0:
             add(d, "pass", again=True)
+        if i % 6 == 0 and rt.variables_of(d):
+            add(d, "pass", pre_eval=True)
     sh = f4.shared_variants(tier)
     for d in (sh if tier == "thorough" else sh[::2]):
         add(d, "pass", again=True)
@@ -49,6 +51,16 @@ def jobs(tier, seed):
     for d in giveup:
         for b in ((1, 2, 3, 5) if tier == "thorough" else (1, 3)):
             add(d, "giveup", bound=b)
+    # the object on which the rewriter gave up is reused inside another expression (value-preserving wrappers; Reciprocal(Reciprocal(e)) only
+    # enlarges... no: it needs e != 0, so it is used on the domain of e with e != 0 by comparing against 1/(1/e) of the reference)
+    for d in giveup[::2]:
+        for wrap in ("negneg", "addzero", "mulone"):
+            add(d, "giveup", bound=2, reuse_after_giveup=wrap)
+    for d in [["Multiply", ["const", 2], ["Add", fam.X, fam.Y, ["const", 1]], ["const", 3]], ["Multiply", ["const", 2], fam.X, ["const", 3], fam.Y],
+              ["Add", ["const", 2], ["Multiply", fam.X, fam.Y], ["const", 3]], ["Multiply", ["const", ["sym", "c1"]], ["Sine", fam.X], ["const", ["sym", "c2"]]]]:
+        for b in (1, 2):
+            for wrap in ("negneg", "addzero", "mulone", "recrec"):
+                add(["Reciprocal", d] if False else d, "giveup", bound=b, reuse_after_giveup=wrap, nonzero=(wrap == "recrec"))
     f2 = fam.f2_quick(6, 0) if tier == "quick" else fam.f2("thorough")
     for d in f2:
         add(d, "pass")
@@ -66,6 +78,16 @@ def jobs(tier, seed):
     return js
 
 
+def prepare(spec, ctx):      # noqa: F811  (adds the coordinates of the pre-evaluation point)
+    common.prepare(spec, ctx)
+    if spec.get("pre_eval"):
+        from symreal import core as sx
+        for v in rt.variables_of(spec["d"]):
+            c = z3.Real("q_" + v)
+            ctx.consts["q_" + v] = c
+            ctx.env["q_" + v] = sx.SymReal(c)
+
+
 def vcs(spec, ctx, outs):
     res = []
     twin = bool(spec.get("twin"))
@@ -75,6 +97,11 @@ def vcs(spec, ctx, outs):
         res.append(common.kind_vc("simplification-does-not-raise", ctx, simp, z3.BoolVal(False), 1))
         return res
     first_form = 2
+    if spec.get("reuse_after_giveup"):
+        if outs[2]["kind"] != "value":
+            res.append(common.kind_vc("simplification-after-give-up-does-not-raise", ctx, outs[2], z3.BoolVal(False), 2))
+            return res
+        first_form = 3
     if spec.get("again"):
         if outs[2]["kind"] != "value":
             res.append(common.kind_vc("second-simplification-does-not-raise", ctx, outs[2], z3.BoolVal(False), 2))
@@ -86,10 +113,13 @@ def vcs(spec, ctx, outs):
         label = "final-form" if k == len(outs) - 1 else f"step"
         if spec.get("what") == "giveup":
             label = "partially-reduced-form"
+        guard = ctx.indom
+        if spec.get("nonzero") and k == len(outs) - 1:
+            guard = z3.And(ctx.indom, ctx.ref != 0)      # Reciprocal(Reciprocal(e)) is e wherever e is defined and non-zero
         if out["kind"] == "value":
-            res.append(common.eq_value_vc(f"{label}:same-value-on-input-domain", ctx, out, ctx.ref, ctx.indom, k, twin=twin))
+            res.append(common.eq_value_vc(f"{label}:same-value-on-input-domain", ctx, out, ctx.ref, guard, k, twin=twin))
         elif out["kind"] == "DomainError":
-            v = common.kind_vc(f"{label}:defined-wherever-input-is", ctx, out, z3.Not(ctx.indom), k)
+            v = common.kind_vc(f"{label}:defined-wherever-input-is", ctx, out, z3.Not(guard), k)
             v.info["form_index"] = k - first_form
             v.info["forms"] = n_forms
             res.append(v)
